@@ -67,6 +67,11 @@ var c16Paths = []c16Path{
 		sc.Parts = [][]byte{[]byte(strings.Repeat("compressible ", 40))}
 		sc.DeclareLen = true
 	}},
+	{name: "upgrade-declined-200", want: 200, reachesBackend: true, req: func() *wire.Request {
+		rq := c16Get()
+		rq.Header = append(rq.Header, wire.HeaderLine{"Connection", "Upgrade"}, wire.HeaderLine{"Upgrade", "websocket"})
+		return rq
+	}},
 	{name: "custom-auth-401", want: 401, req: c16Get, build: func(be *wire.Backend, cfg *config.Config) {
 		cfg.Plugins = config.PluginsConfig{Enabled: true, Chain: []config.PluginConfig{{Name: "custom-auth", Config: map[string]interface{}{"apiKey": "k"}}}}
 	}},
@@ -85,19 +90,32 @@ var c16NameSets = []c16Names{
 	{"default", "", "", "X-Request-ID", "X-Trace-ID", func(s string) string { return s }},
 	{"custom", "X-Correlation-Token", "X-Span", "X-Correlation-Token", "X-Span", func(s string) string { return s }},
 	{"custom-client-lowercase", "X-Correlation-Token", "X-Span", "X-Correlation-Token", "X-Span", strings.ToLower},
+	// one name configured, the other left to its default (each way), and names padded with spaces
+	{"req-custom-trace-default", "X-Correlation-Token", "", "X-Correlation-Token", "X-Trace-ID", func(s string) string { return s }},
+	{"req-default-trace-custom", "", "X-Span", "X-Request-ID", "X-Span", func(s string) string { return s }},
+	{"padded", " X-Correlation-Token ", " X-Span ", "X-Correlation-Token", "X-Span", func(s string) string { return s }},
 }
 
 var c16Values = []struct {
 	label string
-	lines []string // header lines the client sends for each ID header (nil = absent)
+	lines []string // header lines the client sends for the request-ID header (nil = absent)
+	trace []string // ... and for the trace header (nil with sameForTrace = the same lines)
+	same  bool
 }{
-	{"absent", nil},
-	{"abc", []string{"abc"}},
-	{"long", []string{strings.Repeat("k", 200)}},
-	{"inner-space", []string{"a b"}},
-	{"non-ascii", []string{"\xc3\xa4-id"}},
-	{"empty", []string{""}},
-	{"two-lines", []string{"first", "second"}},
+	{"absent", nil, nil, true},
+	{"abc", []string{"abc"}, nil, true},
+	{"long", []string{strings.Repeat("k", 200)}, nil, true},
+	{"inner-space", []string{"a b"}, nil, true},
+	{"non-ascii", []string{"\xc3\xa4-id"}, nil, true},
+	{"empty", []string{""}, nil, true},
+	{"two-lines", []string{"first", "second"}, nil, true},
+	// letter case and characters that mean something in header syntax must survive untouched
+	{"mixed-case", []string{"Order-7F3A"}, []string{"TRACE-AbC"}, false},
+	{"delimiters", []string{"tenant=7,job=12;x=\"q\":/a"}, []string{"a,b"}, false},
+	// only one of the two supplied, and different values for the two
+	{"request-id-only", []string{"only-req"}, nil, false},
+	{"trace-only", nil, []string{"only-trace"}, false},
+	{"distinct", []string{"rid-1"}, []string{"tid-2"}, false},
 }
 
 func TestVerifC16(t *testing.T) {
@@ -137,11 +155,21 @@ func TestVerifC16(t *testing.T) {
 						be.Next(&wire.Script{Status: 500, Parts: [][]byte{[]byte("fail")}})
 						p.prime(e)
 					}
-					for _, echo := range []bool{false, true} {
+					for _, echoMode := range []string{"silent", "echo", "foreign"} {
+						echo := echoMode != "silent"
 						for _, cv := range c16Values {
+							if echoMode == "foreign" && !(cv.label == "absent" || cv.label == "abc" || cv.label == "distinct") {
+								continue
+							}
 							req := p.req()
+							linesOf := func(hn string) []string {
+								if hn == ns.effTrace && !cv.same {
+									return cv.trace
+								}
+								return cv.lines
+							}
 							for _, hn := range []string{ns.effReq, ns.effTrace} {
-								for _, l := range cv.lines {
+								for _, l := range linesOf(hn) {
 									req.Header = append(req.Header, wire.HeaderLine{ns.clientCase(hn), l})
 								}
 							}
@@ -150,9 +178,14 @@ func TestVerifC16(t *testing.T) {
 								st = 500
 							}
 							sc := &wire.Script{Status: st, Parts: [][]byte{[]byte("body")}}
-							if echo {
+							if echoMode == "echo" {
 								// the backend copies the IDs it received into its response
 								sc.Echo = []string{ns.effReq, ns.effTrace}
+							}
+							if echoMode == "foreign" {
+								// the backend answers with ID headers of its own: the client must still get, first,
+								// the value the backend was given
+								sc.Header = append(sc.Header, wire.HeaderLine{ns.effReq, "backend-internal-42"}, wire.HeaderLine{ns.effTrace, "backend-internal-43"})
 							}
 							if p.script != nil {
 								p.script(sc)
@@ -163,7 +196,7 @@ func TestVerifC16(t *testing.T) {
 							resp = e.do(req, 10*time.Second)
 							seen := be.TakeSeen()
 							evals++
-							desc := fmt.Sprintf("request_id=%v trace=%v names=%s path=%s client=%s echo=%v", reqOn, traceOn, ns.label, p.name, cv.label, echo)
+							desc := fmt.Sprintf("request_id=%v trace=%v names=%s path=%s client=%s backend=%s", reqOn, traceOn, ns.label, p.name, cv.label, echoMode)
 							viol := func(key, what string) {
 								r.Violate("C16/"+key, desc+": "+what, len(desc), map[string]interface{}{"engine": "W", "test": "TestVerifC16", "case": desc})
 							}
@@ -182,23 +215,27 @@ func TestVerifC16(t *testing.T) {
 								if p.reachesBackend && len(seen) == 1 {
 									backendVals = seen[0].Header.Values(id.name)
 								}
+								mine := linesOf(id.name)
 								supplied := ""
-								if len(cv.lines) > 0 {
-									supplied = strings.TrimSpace(cv.lines[0])
+								if len(mine) > 0 {
+									supplied = strings.TrimSpace(mine[0])
 								}
 								if !id.on {
 									// neither generated nor altered
 									wantResp := []string(nil)
-									if echo && p.reachesBackend {
-										wantResp = trimAll(cv.lines)
+									if echoMode == "echo" && p.reachesBackend {
+										wantResp = trimAll(mine)
+									}
+									if echoMode == "foreign" && p.reachesBackend {
+										wantResp = []string{map[string]string{"request-id": "backend-internal-42", "trace-id": "backend-internal-43"}[id.kind]}
 									}
 									// (whether a 413 written by size_limit keeps the backend's echoed header is not
 									// this property's business)
 									if fmt.Sprint(got) != fmt.Sprint(wantResp) && !(echo && p.name == "size-limit-413-response") {
 										viol(id.kind+"/disabled-but-altered-on-response", fmt.Sprintf("response carries %s: %q, the exchange itself produces %q", id.name, got, wantResp))
 									}
-									if p.reachesBackend && fmt.Sprint(backendVals) != fmt.Sprint(trimAll(cv.lines)) {
-										viol(id.kind+"/disabled-but-altered-towards-backend", fmt.Sprintf("client sent %q, backend saw %q", cv.lines, backendVals))
+									if p.reachesBackend && fmt.Sprint(backendVals) != fmt.Sprint(trimAll(mine)) {
+										viol(id.kind+"/disabled-but-altered-towards-backend", fmt.Sprintf("client sent %q, backend saw %q", mine, backendVals))
 									}
 									continue
 								}
@@ -239,7 +276,7 @@ func TestVerifC16(t *testing.T) {
 		}
 	}
 	r.AddScenario(vres.Scenario{Name: "id-propagation-product", Engine: "W", Evaluations: evals, Distinct: int64(outs.N()), Outcomes: outs.N(),
-		Rule:  "request_id on/off x trace on/off x 3 header-name sets x 10 response paths x 7 client value shapes x backend echo; distinct = distinct (path, toggles, value shape) classes that produced the expected status",
+		Rule:  "request_id on/off x trace on/off x 6 header-name sets (default, custom, mixed, padded) x 11 response paths x 12 client value shapes (incl. one header only, distinct values, mixed case, delimiter characters) x backend silent / echoing / answering with foreign IDs; distinct = distinct (path, toggles, value shape) classes that produced the expected status",
 		Bound: "full product, one Helios instance per (toggles, names, path)", Exhaustive: true, Sample: sample,
 		Extra: map[string]interface{}{"wall_s": time.Since(start).Seconds()}})
 }
